@@ -256,6 +256,34 @@ func (e *c36Engine) Exec(ops []string) []string {
 				ents[j] = myraft.Entry{Index: last + 1 + uint64(j), Term: 1, Data: []byte{1}}
 			}
 			out[i] = guard(func() error { return ws.Append(ents) })
+		case "s.rover":
+			// a new leader rewrites the last `back` entries of the group's log
+			ws := s.ws[u(t[1])]
+			if ws == nil {
+				out[i] = "nogroup"
+				break
+			}
+			back, n := u(t[2]), int(u(t[3]))
+			last, _ := ws.LastIndex()
+			first, _ := ws.FirstIndex()
+			if back > last {
+				out[i] = "skip"
+				break
+			}
+			start := last + 1 - back
+			if n == 0 {
+				out[i] = "ok"
+				break
+			}
+			if start < first {
+				out[i] = "skip"
+				break
+			}
+			ents := make([]myraft.Entry, n)
+			for j := range ents {
+				ents[j] = myraft.Entry{Index: start + uint64(j), Term: 2, Data: []byte{2}}
+			}
+			out[i] = guard(func() error { return ws.Append(ents) })
 		case "s.rhs":
 			ws := s.ws[u(t[1])]
 			if ws == nil {
@@ -392,8 +420,19 @@ func (e *c36Engine) Gen(r *hlib.Rand, tier string) []string {
 			k := 1 + r.Intn(3)
 			ops = append(ops, fmt.Sprintf("s.rapp %d %d", g, k))
 			last[g] += k
-		case x < 46:
+		case x < 43:
 			ops = append(ops, fmt.Sprintf("s.rhs %d", g))
+		case x < 46:
+			// log conflict: rewrite the last 1..3 entries (usually after a rotation, so that the
+			// rewritten tail lands in a later segment than the batch it belongs to)
+			back, k := 1+r.Intn(3), 1+r.Intn(3)
+			if r.Chance(60) {
+				ops = append(ops, "s.rotate")
+			}
+			ops = append(ops, fmt.Sprintf("s.rover %d %d %d", g, back, k))
+			if last[g] >= back {
+				last[g] = last[g] - back + k
+			}
 		case x < 58:
 			k := r.Intn(last[g] + 2)
 			ops = append(ops, fmt.Sprintf("s.rtrunc %d %d", g, k))
